@@ -1,8 +1,11 @@
 ------------------------------- MODULE AutoGen -------------------------------
 (* Replay vectors for the real NFA/DFA: the expressions AutomataMC checks.  *)
 EXTENDS AutomataMC, Json, IOUtils, SequencesExt
-Plain == SetToSeq({ [e |-> x, f |-> Lit(<<1>>), tagged |-> FALSE] : x \in AllEx })
-Tag == SetToSeq({ [e |-> x, f |-> y, tagged |-> TRUE] : x \in TagEx, y \in TagEx })
-ASSUME ndJsonSerialize(IOEnv.OUT, Plain \o Tag)
-ASSUME PrintT(<<"GENERATED", Len(Plain) + Len(Tag)>>)
+Plain == SetToSeq({ [e |-> x, f |-> Lit(<<1>>), g |-> Lit(<<1>>), tagged |-> FALSE, nested |-> FALSE] : x \in AllEx })
+Tag == SetToSeq({ [e |-> x, f |-> y, g |-> Lit(<<1>>), tagged |-> TRUE, nested |-> FALSE] : x \in TagEx, y \in TagEx })
+\* a tagged choice nested before a non-nullable continuation: (e{1} | f{2}) g
+Sfx == { Lit(<<1>>), Lit(<<2>>), Lit(<<1, 2>>) }
+Nested == SetToSeq({ [e |-> x, f |-> y, g |-> z, tagged |-> TRUE, nested |-> TRUE] : x \in TagEx, y \in TagEx, z \in Sfx })
+ASSUME ndJsonSerialize(IOEnv.OUT, Plain \o Tag \o Nested)
+ASSUME PrintT(<<"GENERATED", Len(Plain) + Len(Tag) + Len(Nested)>>)
 =============================================================================
